@@ -291,6 +291,21 @@ func (x *Exec) joinSepTerm(s *State, sv *SliceV, sep string, depth int) *Term {
 }
 
 func init() {
+	// join(parts, "sep"): strings.Join(parts, sep) for a literal separator
+	specDefs["join"] = func(env *SpecEnv, args []Val) Val {
+		sv, ok := args[0].(*SliceV)
+		sep, ok2 := args[1].(*Term)
+		if !ok || !ok2 || sep.Op != "str" || sep.Str == "" {
+			env.errf("join(parts, \"literal separator\")")
+			return Str("")
+		}
+		st := env.cur()
+		if o := sv.Obj; o != nil && o.splitOf != nil && o.splitSep == sep.Str {
+			whole := &SliceV{Nil: TFalse, Obj: o, Off: Int(0), Len: o.splitLen, Cap: o.splitLen, Elem: sv.Elem}
+			st.assume(Eq(env.x.joinSepTerm(st, whole, sep.Str, 3), o.splitOf))
+		}
+		return env.x.joinSepTerm(st, sv, sep.Str, 3)
+	}
 	specDefs["joinSp"] = func(env *SpecEnv, args []Val) Val {
 		sv, ok := args[0].(*SliceV)
 		if !ok {
@@ -340,6 +355,16 @@ func init() {
 	}
 	// typeName(s): s is a non-empty lower case word. An uninterpreted predicate
 	// with its defining axiom supplied for every s it is evaluated on.
+	// matches(re, s): the *regexp.Regexp re matches s (the re_match relation the
+	// model of MatchString uses, over the pattern re was compiled from)
+	specDefs["matches"] = func(env *SpecEnv, args []Val) Val {
+		subj, ok := env.scalar(args[1])
+		if !ok {
+			env.errf("matches(re, s)")
+			return TFalse
+		}
+		return UF("re_match", SBool, env.x.absGet(env.cur(), args[0], "pattern"), subj)
+	}
 	specDefs["typeName"] = func(env *SpecEnv, args []Val) Val {
 		t, ok := env.scalar(args[0])
 		if !ok {
